@@ -467,7 +467,7 @@ def every_iteration_reaches(ctx, rule, body, site_bb, what, detail_bad, outer=0)
 
 def loop_carried_mutables(body, header, entry):
     """names of locals defined outside the loop (header, entry) and mutated (assigned / mutably borrowed / used as call destination) inside it"""
-    inside = {b for b in body.fwd(entry) if header in body.fwd(b)} | {entry}
+    inside = loop_body(body, header, entry)
     out = set()
     for l in range(body.argc + 1, len(body.f["locals"])):
         if not body.debug.get(l):
@@ -483,7 +483,7 @@ def loop_carried_mutables(body, header, entry):
 def unexpected_carried_state(body, header, entry, extra_allowed=()):
     """loop-carried mutable locals other than, by role (not by name): the local the function returns (the accumulator), iterators,
     and the locals given in extra_allowed (local indices, e.g. scratch buffers identified by their argument slot)"""
-    inside = {b for b in body.fwd(entry) if header in body.fwd(b)} | {entry}
+    inside = loop_body(body, header, entry)
     ret_ls = set()
     for bi, si, s in body.assigns():
         if s["place"]["l"] == 0 and not s["place"]["p"] and s["rv"]["k"] == "use" and s["rv"]["op"]["k"] in ("move", "copy") and not s["rv"]["op"]["place"]["p"]:
@@ -526,7 +526,7 @@ def stale_element_reads(body, getters=None):
             continue
         root = norm(_container_root(o), getters)
         for h, e, it in loops:
-            inside = {x for x in body.fwd(e) if h in body.fwd(x)} | {e}
+            inside = loop_body(body, h, e)
             if d[0] in inside:
                 continue
             used = False
@@ -645,3 +645,11 @@ def siblings_agree(ctx, rule, name_a, name_b, what):
            "the two sibling routines have the same loop / store / call structure (%d loops, %d element stores, %d call kinds)" % (sa["for_loops"] + sa["while_loops"], sa["element_stores"], len(sa["calls"])) if not diff else
            "sibling implementations of the same step (transposes of each other) disagree in structure: %s - one of them was changed alone" % "; ".join(diff[:5]))
     return not diff
+
+
+def loop_body(body, header, entry):
+    """blocks of the natural loop with this header (nested loops included, enclosing loops excluded)"""
+    for h, blocks in natural_loops(body):
+        if h == header:
+            return set(blocks)
+    return {b for b in body.fwd(entry) if header in body.fwd(b)} | {entry}
